@@ -190,6 +190,7 @@ static void run_one(const Subject* sj, const Replay& rp, const std::vector<dsim:
     g_in_run = false;
     out.st = dsim::stats(); out.decs = dsim::decisions(); out.params = p;
     if (!exc.empty()) ctx.fail("exception", "%s", exc.c_str());
+    if (out.st.uaf && ctx.viol.empty()) ctx.fail("use-after-free", "%llu atomic operation(s) on memory that had been given back to the allocator; first: kind %d at %p by t%d at step %llu", (unsigned long long)out.st.uaf, out.st.uaf_kind, out.st.uaf_addr, out.st.uaf_thread, (unsigned long long)out.st.uaf_step);
     if (ctx.viol.empty() && sj->check) sj->check(ctx);
     out.hist = ctx.hist; out.probes = ctx.probes; out.nviol = (int)ctx.viol.size();
     for (auto& e : ctx.hist) if (e.done) ++out.ops_done;
